@@ -17,6 +17,7 @@ mod mir_dump;
 mod mir_types;
 mod mirsem;
 mod mirstage_dump;
+mod names_dump;
 mod ops_table;
 mod opt_kernels;
 mod rewrite_run;
@@ -57,6 +58,7 @@ fn main() {
     "mir-types" => mir_types::main(rest),
     "mir-run" => mirsem::main(rest),
     "mirstage-dump" => mirstage_dump::main(rest),
+    "names-dump" => names_dump::main(rest),
     "ops-table" => ops_table::main(rest),
     "opt-kernels" => opt_kernels::main(rest),
     "rewrite-run" => rewrite_run::main(rest),
